@@ -393,6 +393,7 @@ pub unsafe fn io_uring_enter(fd: i32, to_submit: u32, min_complete: u32, flags: 
             Event::Job => {
                 let job = with_kernel(|k| {
                     k.in_callback = true;
+                    k.cb_offset_ns = 0;
                     k.jobs.pop_front()
                 });
                 if let Some(j) = job {
